@@ -2,7 +2,7 @@
    Statements only; proofs in Proofs/LimitProofs.v.  Models: Model/Limit.v (run validators over the regenerated
    Gen_limit tables).  `closed` is the networkx representation invariant "edge endpoints are nodes". *)
 From stdpp Require Import strings gmap sets.
-From CG Require Import Model.Limit Proofs.LimitProofs Proofs.LimitLint Proofs.LimitTotal Proofs.LimitApi Proofs.LimitApiRegs.
+From CG Require Import Model.Limit Proofs.LimitProofs Proofs.LimitLint Proofs.LimitTotal Proofs.LimitApi Proofs.LimitApiRegs Proofs.LimitRegsLint.
 Open Scope string_scope.
 
 (* obligation on the tables regenerated from tx.py: for every multi-input type t, gatemap t is the non-inverting
@@ -90,6 +90,13 @@ Theorem C05_limit_fanout_total : ∀ C k, 2 ≤ k → closed (c_g C) → lint_cl
   ∃ steps C', limit_fanout_run C k steps = Ok C'.
 Proof. intros C k Hk H1 H2 H3 H4. apply (limit_fanout_total _ C k C05_tables_ok Hk). by split_and!. Qed.
 Print Assumptions C05_limit_fanout_total.
+
+(* insert_registers returns a lint-clean circuit (pins typed and registered, q buffers are the only loads of the q pins,
+   helper names dot-free because the node names of a lint-clean blackbox-free circuit are) *)
+Theorem C05_insert_registers_lint_clean : ∀ C s order C', closed (c_g C) → bb_free C → lint_clean C →
+  insert_registers C s order = Ok C' → lint_clean C'.
+Proof. exact insert_registers_lint. Qed.
+Print Assumptions C05_insert_registers_lint_clean.
 
 (* the oracle's verdict is a statement about `consistent`: a passed check implies the equivalence of the theorems above *)
 Theorem C05_oracle_sound : ∀ c c', equiv_check c c' = true → equiv_on (dom c) c c'.
